@@ -10,7 +10,7 @@ import pykoop.lmi_regressors as lmi
 from .. import core, lmi_common as lc
 
 THEOREMS = ['Pk.C10.C10_core', 'Pk.C10.C10_dissipation', 'Pk.C10.W_nonneg', 'Pk.C10.C10_l2_gain',
-            'Pk.C10.C10_l2_gain_lmi', 'Pk.C10.brl_spec_block', 'Pk.C10.C10_stable', 'Pk.C10.brl_P_posDef', 'Pk.C10.C10_series_post', 'Pk.C10.C10_series_pre']
+            'Pk.C10.C10_l2_gain_lmi', 'Pk.C10.brl_spec_block', 'Pk.C10.C10_stable', 'Pk.C10.brl_P_posDef', 'Pk.C10.C10_series_post', 'Pk.C10.C10_series_pre', 'Pk.C10.C10_units']
 
 
 def dyadic_weight(rng, kind, order=None):
@@ -185,6 +185,37 @@ def oracle_fit(ctx, thorough, forced=None):
     return None, case, reg.stop_reason_
 
 
+def meta_case(ctx):
+    """LmiHinfZpkMeta: the weight handed to the wrapped regressor is the discretised state-space form of the zpk filter
+    after the unit conversion; the fitted cascade obeys the gamma_ bound"""
+    rng = ctx.rng
+    units = rng.choice(['rad/s', 'hz', 'normalized'])
+    t_step = rng.choice([0.1, 0.5, 1.0])
+    kind = rng.choice(['pre', 'post'])
+    disc = rng.choice(['bilinear', 'zoh', 'backward_diff'])
+    z_in, p_in, gain = [-1.0 * rng.choice([0.2, 0.5])], [-1.0 * rng.choice([1.0, 2.0])], rng.choice([1.0, 2.0])
+    if units == 'normalized':
+        z_in, p_in = [z_in[0] / 8], [p_in[0] / 8]
+    X, kw, _, _ = lc.lin_data(rng, 2, 1, radius=0.7, noise=0.02)
+    inner = lmi.LmiEdmdHinfReg(alpha=1, ratio=1, max_iter=2, solver_params=dict(lc.SOLVER))
+    est = lmi.LmiHinfZpkMeta(hinf_regressor=inner, type=kind, zeros=z_in, poles=p_in, gain=gain, discretization=disc,
+                             t_step=t_step, units=units)
+    tag = {'units': units, 't_step': t_step, 'type': kind, 'discretization': disc}
+    try:
+        est.fit(X, **kw)
+    except Exception as ex:
+        return None, tag, 'fit did not complete: ' + type(ex).__name__
+    f = {'rad/s': 1.0, 'hz': 2 * np.pi, 'normalized': np.pi / t_step}[units]
+    ss = scipy.signal.ZerosPolesGain(f * np.array(z_in), f * np.array(p_in), gain).to_ss().to_discrete(t_step, disc)
+    w = est.hinf_regressor_.weight
+    if w[0] != kind or not all(np.allclose(a, b, rtol=1e-12, atol=1e-14) for a, b in zip(w[1:], (ss.A, ss.B, ss.C, ss.D))):
+        return ('LmiHinfZpkMeta: the weight handed to the wrapped regressor is not the discretised zpk filter after the unit '
+                f'conversion ({units})', tag, None)
+    if not np.array_equal(est.coef_, est.hinf_regressor_.coef_):
+        return 'LmiHinfZpkMeta.coef_ differs from the wrapped regressor', tag, None
+    return None, tag, None
+
+
 def run(ctx):
     ctx.rule = ('(i) the real _create_problem_a of LmiEdmdHinfReg (no weight / pre / post first-order filters) and '
                 '_create_ss evaluated with PICOS at dyadic points vs the Lean blocks over Q (1e-12); (ii) scripted-solver '
@@ -242,6 +273,12 @@ def run(ctx):
         ctx.count('fit:' + case['family'] + '/' + str(case['weight']))
         if why:
             ctx.fail(why, case, {'family': case['family'], 'weight': case['weight']})
+    for i in range(ctx.n(6, 60)):
+        why, tag, note = meta_case(ctx)
+        ctx.count('meta:' + tag['units'])
+        ctx.record_case(tag, True)
+        if why:
+            ctx.fail(why, tag, {'estimator': 'LmiHinfZpkMeta', 'units': tag['units']})
     return ctx.finish('proof', None)
 
 
